@@ -34,7 +34,7 @@ RULE = (
 )
 ASSUMPTIONS = ["seeded sampling of cells, not enumeration", "faults are off: they are irrelevant to this property",
                "exceptions of other types than the listed internal-error classes are reported in evidence, not alarmed"]
-PROBES = ["by_ndim_2", "by_ndim_3", "axis_subset", "no_requested_label_present", "single_block", "blocks>split_every",
+PROBES = ["labels_broadcast_axis", "numpy_array_dask_labels", "by_ndim_2", "by_ndim_3", "axis_subset", "no_requested_label_present", "single_block", "blocks>split_every",
           "by_dask", "blockwise_precondition_cell", "auto_resolved_cohorts", "auto_resolved_blockwise", "refused_at_compute",
           "refused_at_call", "engine_numbagg", "engine_flox"]
 
@@ -145,6 +145,11 @@ def gen(tape: Tape, tier: str) -> dict:
     if func == "quantile":
         kwargs["finalize_kwargs"] = {"q": tape.choice("gen.q", [0.5, [0.25, 0.75]])}
     by_dask = tape.chance("gen.bydask", 0.25)
+    # the value array itself may be in memory while only the labels are chunked
+    arr_numpy = bool(by_dask and tape.chance("gen.arrnumpy", 0.3))
+    # a leading label axis of size 1 that broadcasts against the value array
+    if by_ndim >= 2 and layout != "blockwise-friendly" and tape.chance("gen.broadcast", 0.2) and labels.shape[0] > 1:
+        labels = labels[:1]
     nb_last = len(chunks[-1])
     return {
         "kind": "cell",
@@ -152,6 +157,7 @@ def gen(tape: Tape, tier: str) -> dict:
         "by": [enc_array(labels)],
         "chunks": chunks,
         "by_dask": bool(by_dask),
+        "arr_numpy": arr_numpy,
         "kwargs": enc_value(kwargs),
         "knobs": {"split_every": tape.randint("swarm.split_every", 2, max(2, min(nb_last, 5))),
                   "workers": tape.randint("swarm.workers", 1, 3)},
@@ -166,6 +172,7 @@ def _blockwise_precondition(case, labels):
         return True  # automatic rechunk for 1-D labels ... only exact for sequential labels
     lead = case["meta"]["lead"]
     bchunks = case["chunks"][lead:]
+    labels = np.broadcast_to(labels, tuple(sum(c) for c in bchunks))
     edges = [np.cumsum([0] + list(c)) for c in bchunks]
     grid = [len(c) for c in bchunks]
     where: dict = {}
@@ -204,8 +211,9 @@ def _attempt(case, method, tape, ctx):
     kwargs = dec_value(case["kwargs"])
     chunks = tuple(tuple(c) for c in case["chunks"])
     lead = case["meta"]["lead"]
-    darr = da.from_array(arr, chunks=chunks)
-    by = da.from_array(labels, chunks=chunks[lead:]) if case["by_dask"] else labels
+    darr = arr if case.get("arr_numpy") else da.from_array(arr, chunks=chunks)
+    bchunks = tuple(c if labels.shape[i] != 1 else (1,) for i, c in enumerate(chunks[lead:]))
+    by = da.from_array(labels, chunks=bchunks) if case["by_dask"] else labels
     if method is not None:
         kwargs["method"] = method
     plan = {}
@@ -260,6 +268,8 @@ def run(case, tape: Tape, ctx):
     ctx.nontrivial = nb >= 2
     ctx.cell(func, kw.get("engine"), kw.get("reindex"), "dask" if case["by_dask"] else "np", meta["by_ndim"], meta["axis_mode"],
              meta["expected_mode"], meta["layout"], "/".join(f"{outcomes[m][:9]}" for m in methods))
+    ctx.probe("labels_broadcast_axis", labels.ndim >= 2 and labels.shape[0] == 1 and arr.shape[-labels.ndim] > 1)
+    ctx.probe("numpy_array_dask_labels", bool(case.get("arr_numpy")))
     ctx.probe("by_ndim_2", meta["by_ndim"] == 2)
     ctx.probe("by_ndim_3", meta["by_ndim"] == 3)
     ctx.probe("axis_subset", meta["axis_mode"].startswith("last"))
